@@ -13,7 +13,8 @@ same vector.  This module reads all of them into one *stream term*:
     ("for", S, var, [alt, …])   for every element `var` of stream S, in order: one of the alternative terms (one per
                                 path of the per-element code that is feasible under the assumed kinds)
     ("adapted", name, S)        S behind an iterator adaptor that drops / reorders elements (rev, skip, filter, …)
-    ("exit", S)                 a loop over S that can be left before S is exhausted
+    ("exit", F)                 the pass F = ("for", …) is a loop that can be left before its stream is exhausted
+    ("alt", [term, …])          one of several terms, depending on a condition that is not a kind of the operand
     ("other", expr)             a value that was read and is none of the above (a different vector, a phi, …)
     ("unknown", why)            not readable
 
@@ -120,7 +121,9 @@ class Reader:
         if k == "adapted":
             return "%s(%s)" % (t[1], self.show(t[2]))
         if k == "exit":
-            return "a pass over %s that can stop early" % self.show(t[1])
+            return "a pass that can stop early (%s)" % self.show(t[1])
+        if k == "alt":
+            return " | ".join(self.show(a) for a in t[1])
         if k == "other":
             return show_expr(t[1])[:80]
         return "?(%s)" % (t[1],)
@@ -210,6 +213,8 @@ class Reader:
                                 outs.append(self.norm(self.stream(r[2][0])))
                         if outs and all(o == outs[0] for o in outs):
                             return outs[0]
+                        if outs:
+                            return ("alt", [o for i, o in enumerate(outs) if o not in outs[:i]])
                 return ("unknown", "payload of %s" % show_expr(src)[:60])
             if x[0] != "call" or not x[1]:
                 break
@@ -218,10 +223,12 @@ class Reader:
                 res = self.call_results(x, x[2])
                 if not res:
                     return ("unknown", "helper %s" % c.get("key"))
-                outs = [self.norm(self.stream(r)) for r in res]
-                if all(o == outs[0] for o in outs):
-                    return outs[0]
-                return ("unknown", "helper %s yields different streams" % c.get("key"))
+                outs = []
+                for r in res:
+                    o = self.norm(self.stream(r))
+                    if o not in outs:
+                        outs.append(o)
+                return outs[0] if len(outs) == 1 else ("alt", outs)
             path = c["path"]
             last = path.rsplit("::", 1)[-1]
             if EMPTY_CTORS.search(path):
@@ -282,10 +289,11 @@ class Reader:
         if k == "for":
             S = self.norm(t[1])
             alts = []
-            for a in t[3]:
-                a = self.norm(a)
-                if a not in alts:
-                    alts.append(a)
+            for a0 in t[3]:
+                a0 = self.norm(a0)
+                for a in (a0[1] if a0[0] == "alt" else [a0]):
+                    if a not in alts:
+                        alts.append(a)
             if alts and all(a == ("one", t[2]) for a in alts):
                 return S
             if alts and all(a == ("empty",) for a in alts):
@@ -295,6 +303,14 @@ class Reader:
             return ("for", S, t[2], alts)
         if k == "adapted":
             return ("adapted", t[1], self.norm(t[2]))
+        if k == "alt":
+            outs = []
+            for a in t[1]:
+                a = self.norm(a)
+                for b in (a[1] if a[0] == "alt" else [a]):
+                    if b not in outs:
+                        outs.append(b)
+            return outs[0] if len(outs) == 1 else ("alt", outs)
         return t
 
     # ---- append effects -------------------------------------------------------------------------------------------
@@ -445,6 +461,9 @@ def find(t, kind):
         out.extend(find(t[2], kind))
     elif t[0] == "exit":
         out.extend(find(t[1], kind))
+    elif t[0] == "alt":
+        for a in t[1]:
+            out.extend(find(a, kind))
     return out
 
 
